@@ -6,6 +6,7 @@ import (
 	"os"
 	"sort"
 	"strings"
+	"sync"
 
 	"github.com/oasisprotocol/oasis-core/go/common/crypto/hash"
 	"github.com/oasisprotocol/oasis-core/go/storage/mkvs"
@@ -234,6 +235,28 @@ var mpContents = kv.Contents{"\x00": []byte("a"), "\x00\x00": []byte("b"), "\x80
 
 // makeCheckpoint builds the checkpoint of mpContents at version v (3+ chunks).
 func makeCheckpoint(v uint64) (*mpState, error) {
+	// The checkpoint of a version is a pure function of the version: built once per process
+	// (checkpoint creation spawns chunker goroutines, which must not run inside a controlled
+	// execution of the concurrency phase).
+	mpCacheMu.Lock()
+	defer mpCacheMu.Unlock()
+	if c, ok := mpCache[v]; ok {
+		return &mpState{version: c.version, contents: c.contents, root: c.root, meta: c.meta, chunks: c.chunks, restored: map[int]bool{}}, nil
+	}
+	st, err := makeCheckpointUncached(v)
+	if err != nil {
+		return nil, err
+	}
+	mpCache[v] = st
+	return &mpState{version: st.version, contents: st.contents, root: st.root, meta: st.meta, chunks: st.chunks, restored: map[int]bool{}}, nil
+}
+
+var (
+	mpCacheMu sync.Mutex
+	mpCache   = map[uint64]*mpState{}
+)
+
+func makeCheckpointUncached(v uint64) (*mpState, error) {
 	src, err := kv.OpenDB("badger", "")
 	if err != nil {
 		return nil, err
